@@ -228,6 +228,7 @@ var baseValueActivation = func() *sema.VariableActivation {
 	a.DeclareValue(stdlib.InterpreterPanicFunction)
 	a.DeclareValue(stdlib.InterpreterAssertFunction)
 	a.DeclareValue(stdlib.NewInterpreterLogFunction(nil))
+	a.DeclareValue(stdlib.InterpreterInclusiveRangeConstructor)
 	return a
 }()
 
